@@ -506,6 +506,7 @@ func runC07(c *mon.Ctx) {
 			}
 		}
 	}
+	c07CreateWithRoomID(c)
 	c.Floor("reference_allows", 100)
 	c.Floor("reference_rejects", 100)
 	for _, rule := range []string{"3:join-public", "3:restricted-join-authorised", "3:ban-allowed", "3:kick-allowed", "3:invite-allowed", "3:knock-allowed", "3:creator-first-join", "3:tpi-signature-valid",
@@ -524,4 +525,57 @@ func describeState(state []gmsl.PDU) []string {
 		out = append(out, fmt.Sprintf("%s[%s] by %s: %s", p.Type(), sk, p.SenderID(), p.Content()))
 	}
 	return out
+}
+
+// c07CreateWithRoomID: in room versions whose room ID is derived from the create event, the create-event rule reads "if
+// the event has a room_id, reject" - has, not "has a non-empty". The member is added to the JSON of a buildable create
+// event (the builder itself refuses a room ID there) and the event is parsed as trusted and as untrusted input.
+func c07CreateWithRoomID(c *mon.Ctx) {
+	if c.Shard != 0 {
+		return
+	}
+	for _, ver := range sortedVersions() {
+		t := ref.Traits(string(ver))
+		if t == nil || !t.Domainless {
+			continue
+		}
+		impl := gmsl.MustGetRoomVersion(ver)
+		sender := authUsers[0]
+		ps := protoSpec{Type: "m.room.create", StateKey: strp(""), Sender: sender, Content: []byte(`{"room_version":"` + string(ver) + `"}`), Depth: 1}
+		base, err := buildEvent(ver, ps, serverIdentity(serverOf(sender)), baseTime)
+		if err != nil {
+			continue
+		}
+		prov, _ := gmsl.NewAuthEvents(nil)
+		if err := gmsl.Allowed(base, prov, userIDForSender); err != nil {
+			c.Case("create-with-room-id:control:"+string(ver), map[string]any{"version": ver}, func() {
+				c.Failf("auth:library-rejects:1:create-allowed", "the control create event (no room_id) is refused: %v", err)
+			})
+			continue
+		}
+		for name, val := range map[string]*ref.Value{"empty-string": ref.S(""), "null": ref.NullV(), "another-room": ref.S("!other:origin.example"), "number": ref.I(0)} {
+			jv := ref.MustParse(base.JSON())
+			jv.Set("room_id", val)
+			text := gen.Plain().Bytes(rehashAndSign(jv, t))
+			c.Case("create-with-room-id:"+string(ver)+":"+name, map[string]any{"version": ver, "event": string(text)}, func() {
+				c.Nontrivial("create-room-id|" + string(ver) + "|" + name)
+				for pname, parse := range map[string]func([]byte) (gmsl.PDU, error){"trusted": func(b []byte) (gmsl.PDU, error) { return impl.NewEventFromTrustedJSON(b, false) }, "untrusted": impl.NewEventFromUntrustedJSON} {
+					var p gmsl.PDU
+					var perr error
+					if _, _, pan := mon.Guard(func() { p, perr = parse(text) }); pan || perr != nil || p == nil {
+						c.Count("create_with_room_id_refused_at_parse")
+						continue
+					}
+					c.Count("create_with_room_id_judged")
+					var aerr error
+					site, msg, pan := mon.Guard(func() { aerr = gmsl.Allowed(p, prov, userIDForSender) })
+					if pan {
+						c.Failf("auth:panic:"+site, "Allowed panics on a create event carrying room_id (%s, %s parser): %s", name, pname, msg)
+					} else if aerr == nil {
+						c.Failf("auth:library-accepts:1:create-event-has-a-room-id", "v%s: a create event carrying \"room_id\": %s is authorised (%s parser); the rule refuses a create event that has a room_id", ver, gen.Plain().Bytes(val), pname)
+					}
+				}
+			})
+		}
+	}
 }
